@@ -183,6 +183,21 @@ def run_tlc_parts(module, cfg, nparts=16, timeout=900, env=None, **kw):
     return r
 
 
+def run_apalache(module, init, inv, length, timeout=900):
+    """Apalache (symbolic) check; returns (ok, seconds, tail).  Used opportunistically: no verdict depends on it."""
+    out = tempfile.mkdtemp(prefix='apa_', dir=scratch())
+    t0 = time.time()
+    try:
+        p = subprocess.run(['apalache-mc', 'check', f'--init={init}', f'--inv={inv}', f'--length={length}',
+                            f'--out-dir={out}', module], cwd=SPEC, stdout=subprocess.PIPE, stderr=subprocess.STDOUT,
+                           timeout=timeout, text=True, errors='replace')
+        txt = p.stdout
+    except (subprocess.TimeoutExpired, FileNotFoundError) as ex:
+        txt = repr(ex)
+    shutil.rmtree(out, ignore_errors=True)
+    return ('The outcome is: NoError' in txt), time.time() - t0, txt[-600:]
+
+
 class Check:
     """Collects verdicts for one property run and writes the evidence file."""
 
